@@ -67,17 +67,23 @@ class Bag {
     let acc: `[]`
     let seen: `{}`
     pass ("+" >> (Word |> `acc.append`))*
-    pass ("-" >> (Word |> `lambda w: seen.setdefault(w, len(seen))`))*
+    pass ("-" >> (Word |> `lambda w: seen.setdefault(len(seen), w)`))*
     items: `acc`
     count: `len(acc)`
     tally: `seen`
 }
 Dflt = Word+ | `[]`
 Tbl = ("#" >> Word)+ | `{'none': []}`
+class Tag(label) {
+    w: Word?
+    shown: `repr(label)`
+}
 start = [Bag, (";" >> Dflt)?, ("," >> Tbl)?]
 ''',
 ]
-ENTRIES = [[None, 'Line', 'Item', 'Pair', 'Num'], [None, 'Line', 'Expr', 'Id'], [None, 'Tag', 'Text'], [None, 'Bag', 'Dflt', 'Tbl']]
+# (entry points with arguments: values that are == but not the same value are different arguments)
+TAG_ARGS = [(1,), (True,), (1.0,), (0,), (False,), (0.0,), ('x',), (2,), (2.0,), ((1, 2),), ((1.0, 2),)]
+ENTRIES = [[None, 'Line', 'Item', 'Pair', 'Num'], [None, 'Line', 'Expr', 'Id'], [None, 'Tag', 'Text'], [None, 'Bag', 'Dflt', 'Tbl'] + [('Tag', a) for a in TAG_ARGS]]
 TEXT_POOL = [
     ['(1,a);b', '12;x\ny', '(1,(2,z))', 'a;;b', '1 2', '(1,a;b', 'ab\n(3,4);c\n5', '', ';', '( 1 , a )', 'x\n\n(1,2)', 'x\n\n(1,2'],
     ['a+b', 'a+b!-c', '(a+b)!\n##', 'a+', '##\na', 'a++b', '((a))', 'a\nb\nc+d', '', '#a', 'a -b', 'a\n(b+'],
@@ -129,7 +135,13 @@ def call(module, entry, text, pos, fullparse, hookfn=None):
     """One parse call with a hook installed; returns deep outcome."""
     module.HOOK['fn'] = hookfn
     try:
-        out, raw = sut.run(module, entry, text, pos, fullparse, budget=10.0, raw=True)
+        fn = None
+        if isinstance(entry, tuple):
+            try:
+                fn = getattr(module, entry[0]).parse(*entry[1])
+            except Exception as e:
+                return ('EXC', 'entry:' + type(e).__name__)
+        out, raw = sut.run(module, None if fn else entry, text, pos, fullparse, budget=10.0, raw=True, fn=fn)
     finally:
         module.HOOK['fn'] = None
     if out[0] in ('OK', 'PARTIAL', 'FAIL'):
@@ -138,6 +150,14 @@ def call(module, entry, text, pos, fullparse, hookfn=None):
             scribble(raw.partial_result if out[0] == 'PARTIAL' else raw)
         return d
     return out[:2] if out[0] == 'EXC' else out
+
+
+def entry_fn(module, entry):
+    """The parse callable of an entry point: None = module-level parse, a name = R.parse / C.parse,
+    (name, args) = C.parse(*args) of a class with parameters."""
+    if isinstance(entry, tuple):
+        return getattr(module, entry[0]).parse(*entry[1])
+    return sut.entry(module, entry)
 
 
 def scribble(val):
@@ -168,7 +188,7 @@ class Model:
         self.cache = {}
 
     def expected(self, di, entry, text, pos, fullparse, canned=None, raise_at=None):
-        key = (di, entry, text, pos, fullparse, canned, raise_at)
+        key = (di, repr(entry), text, pos, fullparse, canned, raise_at)
         if key not in self.cache:
             mod, err, _ = compile_desc(di, named=sut.fresh_name('vfc18p_'))
             if mod is None:
@@ -224,7 +244,7 @@ class World:
         base = TEXT_POOL[di][ti % len(TEXT_POOL[di])]
         vs = variants(base)
         t = vs[vi % len(vs)]
-        if (mi + ei + ti + vi) % 2:
+        if vi % 2:
             # half of the calls get a text object of their own that nobody keeps (the next such text may live
             # at the same address); the other half share the pooled object across calls and modules
             t = ''.join(list(t))
@@ -270,7 +290,8 @@ class World:
                 saved = mod2.HOOK.get('fn')
                 mod2.HOOK['fn'] = None
                 try:
-                    out, raw = sut.run(mod2, entry2, text2, budget=10.0, raw=True)
+                    fn2 = getattr(mod2, entry2[0]).parse(*entry2[1]) if isinstance(entry2, tuple) else None
+                    out, raw = sut.run(mod2, None if fn2 else entry2, text2, budget=10.0, raw=True, fn=fn2)
                     seen['nested'] = deep_outcome(mod2, out[0], raw) if out[0] in ('OK', 'PARTIAL', 'FAIL') else out[:2]
                     seen['raw'] = raw if out[0] == 'OK' else None
                 finally:
@@ -403,7 +424,8 @@ def run_schedule(case):
             wants.append((di, entry, text, MODEL.expected(di, entry, text, 0, True)))
 
             def job(mod=mod, entry=entry, text=text):
-                out, raw = sut.run(mod, entry, text, budget=60.0, raw=True)
+                fn = entry_fn(mod, entry)
+                out, raw = sut.run(mod, None, text, budget=60.0, raw=True, fn=fn)
                 return deep_outcome(mod, out[0], raw) if out[0] in ('OK', 'PARTIAL', 'FAIL') else out[:2]
             jobs.append(job)
         for mod, di, name in w.mods:
@@ -439,7 +461,7 @@ def stress(n_threads, n_parses, seed):
         for t in range(n_threads):
             calls = []
             for _ in range(n_parses):
-                mi, ei, ti, vi = rnd.randrange(4), rnd.randrange(5), rnd.randrange(12), rnd.randrange(4)
+                mi, ei, ti, vi = rnd.randrange(4), rnd.randrange(15), rnd.randrange(12), rnd.randrange(4)
                 mod, di, entry, text = w.pick(mi, ei, ti, vi)
                 calls.append((mod, di, entry, text, MODEL.expected(di, entry, text, 0, True)))
             plan.append(calls)
@@ -448,7 +470,7 @@ def stress(n_threads, n_parses, seed):
         def worker(calls):
             for mod, di, entry, text, want in calls:
                 try:
-                    f = sut.entry(mod, entry)
+                    f = entry_fn(mod, entry)
                     try:
                         v = f(text)
                         got = deep_outcome(mod, 'OK', v)
@@ -515,7 +537,7 @@ class C18(Check):
         from hypothesis import given, settings, seed, HealthCheck, Phase, strategies as st
         if task[0] == 'sched':
             _, s, n = task
-            callst = st.tuples(st.integers(0, 3), st.integers(0, 4), st.integers(0, 11), st.integers(0, 3))
+            callst = st.tuples(st.integers(0, 3), st.integers(0, 14), st.integers(0, 11), st.integers(0, 3))
 
             @seed(s)
             @settings(max_examples=n, database=None, deadline=None, phases=[Phase.generate],
@@ -588,15 +610,15 @@ class C18(Check):
                     self.reported = True
                     res.mismatch({'history': [tuple(o) for o in self.history]})
 
-            @rule(mi=I(0, 3), ei=I(0, 4), ti=I(0, 11), vi=I(0, 3), pos=I(0, 6), full=st.booleans())
+            @rule(mi=I(0, 3), ei=I(0, 14), ti=I(0, 11), vi=I(0, 3), pos=I(0, 6), full=st.booleans())
             def parse(self, mi, ei, ti, vi, pos, full):
                 self.step(('parse', mi, ei, ti, vi, pos if pos < 4 else 0, full))
 
-            @rule(mi=I(0, 3), ei=I(0, 4), ti=I(0, 11), vi=I(0, 3), at=I(1, 4))
+            @rule(mi=I(0, 3), ei=I(0, 14), ti=I(0, 11), vi=I(0, 3), at=I(1, 4))
             def raising(self, mi, ei, ti, vi, at):
                 self.step(('raise', mi, ei, ti, vi, at))
 
-            @rule(mi=I(0, 3), ei=I(0, 4), ti=I(0, 11), vi=I(0, 3), at=I(1, 3), mi2=I(0, 3), ei2=I(0, 4), ti2=I(0, 11),
+            @rule(mi=I(0, 3), ei=I(0, 14), ti=I(0, 11), vi=I(0, 3), at=I(1, 3), mi2=I(0, 3), ei2=I(0, 14), ti2=I(0, 11),
                   vi2=I(0, 3), embed=I(0, 2))
             def nested(self, mi, ei, ti, vi, at, mi2, ei2, ti2, vi2, embed):
                 self.step(('nested', mi, ei, ti, vi, at, mi2, ei2, ti2, vi2, embed))
@@ -604,6 +626,30 @@ class C18(Check):
             @rule(kind=st.sampled_from(['unrelated', 'extend', 'reuse']), mi=I(0, 3))
             def grammar(self, kind, mi):
                 self.step(('grammar', kind, mi))
+
+            # the previous call's module and text once more (the same pooled text object when it was one),
+            # through another entry point and in another way: what the earlier call computed or left behind
+            # is not this call's business
+            def last(self):
+                for op in reversed(self.history):
+                    if op[0] in ('parse', 'raise', 'nested'):
+                        return op[1], op[3], op[4]
+                return 0, 0, 0
+
+            @rule(ei=I(0, 14), pos=I(0, 6), full=st.booleans())
+            def parse_again(self, ei, pos, full):
+                mi, ti, vi = self.last()
+                self.step(('parse', mi, ei, ti, vi, pos if pos < 4 else 0, full))
+
+            @rule(ei=I(0, 14), at=I(1, 4))
+            def raising_again(self, ei, at):
+                mi, ti, vi = self.last()
+                self.step(('raise', mi, ei, ti, vi, at))
+
+            @rule(ei=I(0, 14), at=I(1, 3), ei2=I(0, 14), embed=I(0, 2))
+            def nested_again(self, ei, at, ei2, embed):
+                mi, ti, vi = self.last()
+                self.step(('nested', mi, ei, ti, vi, at, mi, ei2, ti, vi, embed))
 
             def teardown(self):
                 self.world.close()
